@@ -347,7 +347,10 @@ pub fn random_ir(rng: &mut Rng, opts: &Opts) -> Value {
                 }
                 match g.rng.below(3) {
                     0 => ep["auth"] = json!({"type": "header", "header": {}}),
-                    1 => ep["auth"] = json!({"type": "cookie", "cookie": {"cookieName": "sess"}}),
+                    1 => {
+                        let cn = ["sess", "Sess_Tok", "SESSION-ID"][g.rng.below(3)];
+                        ep["auth"] = json!({"type": "cookie", "cookie": {"cookieName": cn}})
+                    }
                     _ => {}
                 }
                 eps.push(ep);
